@@ -11,6 +11,8 @@ import (
 	disputetypes "github.com/tellor-io/layer/x/dispute/types"
 	oracletypes "github.com/tellor-io/layer/x/oracle/types"
 
+	"cosmossdk.io/math"
+
 	sdk "github.com/cosmos/cosmos-sdk/types"
 )
 
@@ -157,6 +159,8 @@ func FullAlphabet(c *Cast) func(w *World) []Event {
 		})
 		add("Switch(S1->R2)", "switch", func(w *World) sdk.Msg { return MsgSwitch(c.S1.Acc, c.R2.Acc) })
 		add("Switch(S2->R1)", "switch", func(w *World) sdk.Msg { return MsgSwitch(c.S2.Acc, c.R1.Acc) })
+		add("Switch(S1->RV2)", "switch", func(w *World) sdk.Msg { return MsgSwitch(c.S1.Acc, c.RV2.Acc) })
+		add("Switch(S3->R2)", "switch", func(w *World) sdk.Msg { return MsgSwitch(c.S3.Acc, c.R2.Acc) })
 		add("Switch(R1->R2)", "switch/reporter", func(w *World) sdk.Msg { return MsgSwitch(c.R1.Acc, c.R2.Acc) })
 		add("RemoveSelector(Payer,S1)", "removeselector", func(w *World) sdk.Msg { return MsgRemoveSelector(c.Payer.Acc, c.S1.Acc) })
 		add("Unjail(R1)", "unjail", func(w *World) sdk.Msg { return MsgUnjail(c.R1.Acc) })
@@ -164,7 +168,7 @@ func FullAlphabet(c *Cast) func(w *World) []Event {
 		for _, u := range []struct {
 			n string
 			u *User
-		}{{"R1", c.R1}, {"S1", c.S1}, {"R2", c.R2}, {"S2", c.S2}} {
+		}{{"R1", c.R1}, {"S1", c.S1}, {"R2", c.R2}, {"S2", c.S2}, {"S3", c.S3}} {
 			u := u
 			add("WithdrawTip("+u.n+",V1)", "withdrawtip", func(w *World) sdk.Msg { return MsgWithdrawTip(u.u.Acc, V[0]) })
 		}
@@ -322,7 +326,7 @@ func FullAlphabet(c *Cast) func(w *World) []Event {
 		voters := []struct {
 			n string
 			u *User
-		}{{"Team", w.Team}, {"Tipper", c.Tipper}, {"R1", c.R1}, {"R2", c.R2}, {"S1", c.S1}, {"S2", c.S2}, {"Payer", c.Payer}}
+		}{{"Team", w.Team}, {"Tipper", c.Tipper}, {"R1", c.R1}, {"R2", c.R2}, {"S1", c.S1}, {"S2", c.S2}, {"S3", c.S3}, {"Payer", c.Payer}}
 		for _, vt := range voters {
 			for _, ch := range voteOrder {
 				vt, ch, cn := vt, ch, voteNames[ch]
@@ -432,4 +436,28 @@ func BlockAlphabet() []Event {
 func WithBlocks(a func(w *World) []Event) func(w *World) []Event {
 	bl := BlockAlphabet()
 	return func(w *World) []Event { return append(a(w), bl...) }
+}
+
+// EnvEvents are environment events outside the message alphabet: a validator is slashed 1% by x/slashing
+// evidence handling (staking keeper Slash), which makes its tokens-per-share rate differ from 1.
+func EnvEvents(w0 *World) []Event {
+	var evs []Event
+	for i, v := range w0.Vals {
+		if i > 1 {
+			break
+		}
+		v := v
+		evs = append(evs, Event{Label: "Slash(" + v.Name + ",1%)", Tag: "env/slash", Apply: func(w *World) Outcome {
+			sv, err := w.App.StakingKeeper.GetValidator(w.Ctx, v.Val)
+			if err != nil || !sv.IsBonded() {
+				return Outcome{Kind: "tx-rej", Err: "not bonded"}
+			}
+			ca, _ := sv.GetConsAddr()
+			if _, err := w.App.StakingKeeper.Slash(w.Ctx, ca, w.Height(), sv.GetConsensusPower(sdk.DefaultPowerReduction), math.LegacyNewDecWithPrec(1, 2)); err != nil {
+				return Outcome{Kind: "tx-rej", Err: err.Error()}
+			}
+			return Outcome{Kind: "env"}
+		}})
+	}
+	return evs
 }
